@@ -181,6 +181,11 @@ func MergeMap[K, V any]() fp.Monoid[fp.Map[K, V]] {
 	return New(
 		fp.Zero[fp.Map[K, V]],
 		func(a, b fp.Map[K, V]) fp.Map[K, V] {
+			// the identity is the zero value, which has no hasher of its own:
+			// building b again on top of it would lose b's key equivalence
+			if a.IsEmpty() {
+				return b
+			}
 			return a.Concat(b)
 		})
 }
@@ -189,6 +194,9 @@ func MergeSet[V any]() fp.Monoid[fp.Set[V]] {
 	return New(
 		fp.Zero[fp.Set[V]],
 		func(a, b fp.Set[V]) fp.Set[V] {
+			if a.IsEmpty() {
+				return b
+			}
 			return a.Concat(b)
 		})
 }
